@@ -48,6 +48,11 @@ func (a baseAlgo) SelectBeacons(_ context.Context, beacons []Beacon, resultSize 
 	if len(beacons) <= resultSize {
 		return beacons
 	}
+	if resultSize <= 1 {
+		// There are no "shortest resultSize-1 beacons" to compare the diversity against: serve
+		// the shortest beacon.
+		return beacons[:max(resultSize, 0)]
+	}
 
 	result := make([]Beacon, resultSize-1, resultSize)
 	copy(result, beacons[:resultSize-1])
